@@ -354,6 +354,21 @@ void vp_c04_unfulfilled(int v, int n, vp_obs& o)
   }
   o.x = v; o.y = n;
 }
+// C04: the scope of an unfulfilled expectation is left by an exception (here: the reporter's throw for a call nothing matches)
+void vp_c04_unwound(int v, vp_obs& o)
+{
+  vp_M2 m;
+  o.ret = 0; o.x = 0;
+  try {
+    REQUIRE_CALL(m, p(5, trompeloeil::_)).TIMES(AT_LEAST(1));
+    vp_M9 other;
+    o.x = 1;
+    other.z();                      // no expectation on z(): fatal report, the conforming reporter throws, the block is unwound
+    o.x = 2;
+  }
+  catch (...) { o.ret = 1; }
+  o.y = v; o.extra = 0;
+}
 // C13 through the macros: REQUIRE_DESTRUCTION plumbing (lifetime_monitor_modifier, operator+), expected and unexpected destruction
 void vp_c13_macros(bool expect, vp_obs& o)
 {
